@@ -17,7 +17,12 @@ package series
 //@ spec tsoAt(buf []byte, v byte, i int) uint64 = le64(buf[tsoHdr(v) + 12*i:])
 //@ spec tsoOffAt(buf []byte, v byte, i int) uint32 = le32(buf[tsoHdr(v) + 12*i + 8:])
 //@ spec tsoSorted(buf []byte, v byte, n int) bool = forall(i, 0, n, forall(j, i+1, n, tsoAt(buf, v, i) < tsoAt(buf, v, j)))
-//@ spec tsoWf(buf []byte, v byte, n uint32) bool = (v == 1 || v == 2) && n >= 1 && n <= 67108864 && len(buf) >= tsoHdr(v) + 12*int(n) && tsoSorted(buf, v, int(n))
+// tsoShape is what loadTSOFile checks before a table is used: nothing else is
+// required of the file's bytes for panic-freedom (C18, the `@safety` views
+// below); tsoWf adds what the writer guarantees and a damaged file may lack —
+// the entries are sorted — and is what the functional contracts (C08) need.
+//@ spec tsoShape(buf []byte, v byte, n uint32) bool = (v == 1 || v == 2) && n >= 1 && n <= 67108864 && len(buf) >= tsoHdr(v) + 12*int(n)
+//@ spec tsoWf(buf []byte, v byte, n uint32) bool = tsoShape(buf, v, n) && tsoSorted(buf, v, int(n))
 
 //@ func getOffsetFromTsoFile
 //@   props C08
@@ -49,4 +54,42 @@ package series
 //@   ensures [table-untouched] samebase(tsbr.rawTSO, old(tsbr.rawTSO)) && len(tsbr.rawTSO) == old(len(tsbr.rawTSO)) && tsbr.tsoVersion == old(tsbr.tsoVersion) && tsbr.numTSIDs == old(tsbr.numTSIDs)
 //@   ensures [a-stored-series-is-found] implies(!result1, forall(i, 0, int(tsbr.numTSIDs), tsoAt(tsbr.rawTSO, tsbr.tsoVersion, i) != tsid))
 //@   ensures [found-means-stored] implies(result1, !tsbr.first && tsbr.lastTSID == tsid)
+//@ end
+
+// C18 views (`func F @safety`: a second contract of the same function, verified
+// on its own and used at call sites only by functions verified under the same
+// view).  For EVERY content of the .tso / .tsg files — sorted or not — that
+// passed the shape check of loadTSOFile, a look-up neither indexes outside the
+// table nor slices outside the series buffer.
+//@ func getOffsetFromTsoFile @safety
+//@   props C18
+//@   requires tsoShape(tsoBuf, tsoVersion, nTsids) && high < nTsids && low <= high
+//@   loop 1:
+//@     invariant old(low) <= low && high <= old(high) && low <= high + 1 && high < nTsids
+//@     invariant samebase(tsoBuf[0:0], old(tsoBuf)[tsoHdr(tsoVersion):tsoHdr(tsoVersion)]) && len(tsoBuf) == len(old(tsoBuf)) - tsoHdr(tsoVersion)
+//@   ensures [a-found-index-is-inside-the-window] implies(result0, low <= result1 && result1 <= high)
+//@   pure
+//@   safe
+//@ end
+//@ func (*TimeSeriesBlockReader).GetTimeSeriesIterator @safety
+//@   props C18
+//@   requires tsbr != nil && tsbr.numTSIDs <= 67108864 && (tsbr.numTSIDs == 0 || tsoShape(tsbr.rawTSO, tsbr.tsoVersion, uint32(tsbr.numTSIDs))) && len(tsbr.rawTSG) <= 4294967295
+//@   requires [cursor-inside-the-table] implies(!tsbr.first, tsbr.lastTSidx < uint32(tsbr.numTSIDs))
+//@   safe
+//@   ensures [cursor-stays-inside-the-table] implies(!tsbr.first, tsbr.lastTSidx < uint32(tsbr.numTSIDs))
+//@   ensures [table-untouched] samebase(tsbr.rawTSO, old(tsbr.rawTSO)) && len(tsbr.rawTSO) == old(len(tsbr.rawTSO)) && tsbr.tsoVersion == old(tsbr.tsoVersion) && tsbr.numTSIDs == old(tsbr.numTSIDs)
+//@ end
+//@ func loadFileIntoPoolBuffer
+//@   props C18
+//@   modifies contents(bufferFromPool)
+//@   safe
+//@ end
+// the table handed to the block reader has the shape the look-up needs, whatever
+// the bytes of the .tso file are (an entry count that does not fit the file is
+// an error), and loading is panic-free for every file content
+//@ func (*TimeSeriesSegmentReader).loadTSOFile
+//@   props C18
+//@   requires tssr != nil && len(tssr.tsoBuf) <= 4294967295
+//@   safe
+//@   ensures [a-loaded-table-holds-the-entries-it-announces] implies(result3 == nil, result2 == 0 || (result2 <= 4294967295 && (result0 == 1 || result0 == 2) && len(result1) >= tsoHdr(result0) + 12*int(result2)))
 //@ end
